@@ -166,11 +166,17 @@ static void dump_state(std::ostream& o, St<IT_>& s)
 // ------------------------------------------------------------------------------------------------ aliasing observation
 // b was made from a (clone / layout rebuild); fill = the value array of b is uninitialised and is filled from a first
 template<typename M_>
-static void observe(std::ostream& o, M_& a, M_& b, bool fill)
+static void observe(std::ostream& o, M_& a, M_& b, bool fill, bool fill_idx = false)
 {
   auto& ea = a.get_elements(); auto& eb = b.get_elements();
   auto& ia = a.get_indices(); auto& ib = b.get_indices();
   const auto& es = a.get_elements_size();
+  if(fill_idx)
+  {
+    const auto& is = a.get_indices_size();
+    for(std::size_t k(0); k < ia.size() && k < ib.size(); ++k)
+      if(ia[k] != ib[k]) for(Index i(0); i < is[k]; ++i) ib[k][i] = ia[k][i];
+  }
   bool sv = !ea.empty() && ea.size() == eb.size(), si = !ia.empty() && ia.size() == ib.size();
   for(std::size_t k(0); k < ea.size() && k < eb.size(); ++k) sv = sv && ea[k] != nullptr && ea[k] == eb[k];
   for(std::size_t k(0); k < ia.size() && k < ib.size(); ++k) si = si && ia[k] != nullptr && ia[k] == ib[k];
@@ -425,12 +431,13 @@ static bool step(Cur& c, St<IT_>& s, std::ostream& o)
   if(op == "clone")
   {
     Index m = c.idx();
-    if(m > 3) return false;
-    const CloneMode cm = (m == 0 ? CloneMode::Shallow : m == 1 ? CloneMode::Layout : m == 2 ? CloneMode::Weak : CloneMode::Deep);
+    if(m > 4) return false;
+    const CloneMode cm = (m == 0 ? CloneMode::Shallow : m == 1 ? CloneMode::Layout : m == 2 ? CloneMode::Weak : m == 3 ? CloneMode::Deep : CloneMode::Allocate);
     visit(s, [&](auto& a)
     {
       auto b = a.clone(cm);
-      observe(o, a, b, cm == CloneMode::Layout);
+      // Layout / Allocate leave the new arrays uninitialised: the harness carries the content over before looking
+      observe(o, a, b, cm == CloneMode::Layout || cm == CloneMode::Allocate, cm == CloneMode::Allocate);
       a = std::move(b);
     });
     return true;
@@ -450,6 +457,45 @@ static bool step(Cur& c, St<IT_>& s, std::ostream& o)
       }
     });
     return ok;
+  }
+  if(op == "layoutz" || op == "layouta")
+  {
+    // rebuild from the layout object: constructor (layoutz) or assignment to a pre-existing target of kind k (layouta);
+    // the fresh value array is then zeroed (format) -> same pattern, zero matrix.  AL<0|1>: the pool allocation of the
+    // new value array is large enough for the number of values the container claims.
+    const bool assign = (op == "layouta");
+    Index kind = assign ? c.idx() : 0;
+    bool ok = true;
+    visit(s, [&](auto& a)
+    {
+      typedef typename std::decay<decltype(a)>::type M;
+      if constexpr (std::is_same<M, DenseMatrix<Q, IT_>>::value) ok = false;
+      else
+      {
+        M t;
+        if(assign) { if(!prep_same(t, a, kind)) { ok = false; return; } t = a.layout(); }
+        else { M b(a.layout()); t = std::move(b); }
+        bool al = true;
+        const auto& el = t.get_elements(); const auto& els = t.get_elements_size();
+        for(std::size_t k(0); k < el.size(); ++k)
+          if(el[k] != nullptr && MemoryPool::allocated_size(el[k]) < els[k] * sizeof(Q)) al = false;
+        if(al) t.format();
+        o << "AL" << (al ? 1 : 0) << " ";
+        if(!al) { ok = true; a = M(); return; }
+        observe(o, a, t, false);
+        if(assign) out_src(o, a);
+        a = std::move(t);
+      }
+    });
+    return ok;
+  }
+  if(op == "graphz")
+  {
+    if(s.fmt != F_CSR) return false;
+    Adjacency::Graph g(Adjacency::RenderType::as_is, s.csr);
+    SparseMatrixCSR<Q, IT_> b(g);
+    s.csr = std::move(b);
+    return true;
   }
   if(op == "graph")
   {
@@ -483,12 +529,18 @@ static bool step(Cur& c, St<IT_>& s, std::ostream& o)
   if(op == "perm")
   {
     NV p = c.idxlist(), q = c.idxlist();
-    if(s.fmt != F_CSR) return false;
+    if(s.fmt != F_CSR && s.fmt < F_B22) return false;
     std::vector<Index> pp(p.begin(), p.end()), qq(q.begin(), q.end());
     Adjacency::Permutation pr, pc;
     if(!pp.empty()) pr = Adjacency::Permutation(Index(pp.size()), Adjacency::Permutation::ConstrType::perm, pp.data());
     if(!qq.empty()) pc = Adjacency::Permutation(Index(qq.size()), Adjacency::Permutation::ConstrType::perm, qq.data());
-    s.csr.permute(pr, pc);
+    switch(s.fmt)
+    {
+    case F_CSR: s.csr.permute(pr, pc); break;
+    case F_B22: s.b22.permute(pr, pc); break;   // permutations of the BLOCK rows / columns
+    case F_B23: s.b23.permute(pr, pc); break;
+    case F_B32: s.b32.permute(pr, pc); break;
+    }
     return true;
   }
   if(op == "trs")
@@ -672,10 +724,40 @@ static void run(Cur& c, std::ostream& o)
   o << buf.str();
 }
 
+// "IT vec L(values) nops (vperm L(p))*":  DenseVector::permute
+template<typename IT_>
+static void run_vec(Cur& c, std::ostream& o)
+{
+  QV v = qlist(c);
+  DenseVector<Q, IT_> x;
+  if(!v.empty()) x = mk_vec<IT_>(v);
+  std::ostringstream buf;
+  auto show = [&]() { buf << "| vec"; if(x.size() > 0) out_arr(buf, x.elements(), x.size()); else buf << " 0"; buf << " "; };
+  show();
+  Index nops = c.idx();
+  for(Index k(0); k < nops; ++k)
+  {
+    if(c.str() != "vperm") { o << "BAD-OP"; return; }
+    NV p = c.idxlist();
+    std::vector<Index> pp(p.begin(), p.end());
+    Adjacency::Permutation pr;
+    if(!pp.empty()) pr = Adjacency::Permutation(Index(pp.size()), Adjacency::Permutation::ConstrType::perm, pp.data());
+    x.permute(pr);
+    show();
+  }
+  o << buf.str();
+}
+
 static void handle(const verif::Tokens& tk, std::ostream& o)
 {
   Cur c(tk);
   Index it = c.idx();
+  if(tk.size() > 1 && tk[1] == "vec")
+  {
+    c.str();
+    if(it == 32) run_vec<std::uint32_t>(c, o); else if(it == 64) run_vec<std::uint64_t>(c, o); else o << "BAD-OP";
+    return;
+  }
   if(it == 32) run<std::uint32_t>(c, o);
   else if(it == 64) run<std::uint64_t>(c, o);
   else o << "BAD-OP";
